@@ -1,8 +1,9 @@
 (** * Infer.ClosedU — relating types with lifetime UNKNOWNS (property C29).
 
     Fragment [ufrag]: as [Closed.cfrag] (references, mutable references, raw pointers, slices,
-    tuples, ADTs with declared variances, scalars, placeholders) but lifetimes may also be
-    unknowns; fn pointers are left out here (they are related in two passes).  No type unknowns,
+    tuples, ADTs with declared variances, fn pointers without binders, scalars, placeholders) but
+    lifetimes may also be unknowns (a fn pointer at an invariant position is related in two
+    passes, the second one on the table left by the first).  No type unknowns,
     hence no generalisation, no occurs check and no fresh variable: [relate] only emits outlives
     goals and — at invariant positions — binds or unions lifetime unknowns.
 
@@ -353,6 +354,7 @@ Section Model.
         | HRaw _ | HSlice => match cs with [x] => ufrag x | _ => false end
         | HTuple n => Nat.eqb (length cs) (N.to_nat n) && forallb ufrag cs
         | HAdt id => Nat.eqb (length cs) (arity id) && forallb (fun c => closed_ltu c || ufrag c) cs
+        | HFnPtr n _ _ _ => (n =? 0) && negb (Nat.eqb (length cs) 0) && forallb ufrag cs
         | _ => false
         end
     | _ => false
@@ -383,16 +385,21 @@ Section Model.
     - destruct cs as [| x [| y r]]; try discriminate. constructor; [| constructor]. rewrite H. apply orb_true_r.
     - destruct cs as [| l [| x [| z r]]]; try discriminate. apply andb_true_iff in H. destruct H as [H1 H2].
       constructor; [rewrite H1; reflexivity | constructor; [rewrite H2; apply orb_true_r | constructor]].
+    - apply andb_true_iff in H. destruct H as [_ H]. rewrite forallb_forall in H. apply Forall_forall.
+      intros x Hx. rewrite (H x Hx). apply orb_true_r.
   Qed.
 
   Lemma ufrag_head_not_static h cs : ufrag (Node h cs) = true -> h <> HLStatic.
   Proof. destruct h; try discriminate; intros _ E; discriminate E. Qed.
 
   Lemma ufrag_class h cs : ufrag (Node h cs) = true ->
-    (structural_head h = true /\ tcls_of (Node h cs) = COther) \/ (exists u i, h = HPlaceholder u i /\ cs = []).
+    (structural_head h = true /\ tcls_of (Node h cs) = COther) \/ (exists u i, h = HPlaceholder u i /\ cs = [])
+    \/ (exists a s vd, h = HFnPtr 0 a s vd /\ cs <> []).
   Proof.
     destruct h; cbn [ufrag]; try discriminate; intros H; try (left; split; reflexivity).
-    right. destruct cs; [eauto | discriminate].
+    - right. left. destruct cs; [eauto | discriminate].
+    - right. right. apply andb_true_iff in H. destruct H as [H _]. apply andb_true_iff in H. destruct H as [H1 H2].
+      apply N.eqb_eq in H1. subst. exists a, s, variadic. split; [reflexivity |]. intros ->. discriminate H2.
   Qed.
 
   Lemma ufrag_same_head_len h ca cb :
@@ -439,6 +446,63 @@ Section Model.
     split; [intros _ p [] | intros _; split; [exact R | intros x y []]].
   Qed.
 
+  (** fn pointers without binders: instantiation is the identity *)
+  Lemma subst_u : forall c ps k, uterm c = true -> subst ps k c = Ok c.
+  Proof.
+    induction c as [s d i | d i c IH | h cs IH] using tm_ind'; intros ps k H; try discriminate.
+    assert (HC : Forall (fun c => uterm c = true) cs).
+    { unfold uterm in H. apply orb_true_iff in H. destruct H as [H | H].
+      - destruct (closed_ltu_inv _ H) as [C | (v & E)].
+        + destruct (closed_lt_inv _ C) as [E | [(u & i & E) | E]]; inversion E; constructor.
+        + inversion E; constructor.
+      - apply ufrag_children in H. exact H. }
+    cbn [subst]. rewrite (rmap_ok _ cs cs); [reflexivity |].
+    clear H. induction cs as [| x r IHr]; [constructor |].
+    inversion IH; subst. inversion HC; subst. constructor; [apply H1; assumption | apply IHr; assumption].
+  Qed.
+
+  Lemma subst_children_u ps cs t :
+    Forall (fun c => uterm c = true) cs -> subst_children ps cs t = (Done cs, t, []).
+  Proof.
+    intros H. unfold subst_children. rewrite (rmap_ok _ cs cs); [reflexivity |].
+    induction H as [| x r Hx _ IHr]; [constructor | constructor; [apply subst_u; exact Hx | exact IHr]].
+  Qed.
+
+  Lemma inst_univ_u cs t : Forall (fun c => uterm c = true) cs -> inst_univ 0 cs t = (Done cs, t, []).
+  Proof. intros H. unfold inst_univ. cbn [N.eqb]. apply subst_children_u. exact H. Qed.
+
+  Lemma inst_exist_u cs t : Forall (fun c => uterm c = true) cs -> inst_exist 0 cs t = (Done cs, t, []).
+  Proof.
+    intros H. unfold inst_exist. rewrite bind_get_table. cbn [N.to_nat seq mapM].
+    rewrite bind_ret. cbn [map]. apply subst_children_u. exact H.
+  Qed.
+
+  Lemma erase_app_tail_u pa ra pb rb : length pa = length pb ->
+    (map erase (pa ++ [ra]) = map erase (pb ++ [rb]) <-> map erase pa = map erase pb /\ erase ra = erase rb).
+  Proof.
+    intros Hl. rewrite !map_app. cbn [map]. split.
+    - intros H. apply app_inj_tail in H. exact H.
+    - intros [-> ->]. reflexivity.
+  Qed.
+
+  Lemma vc_fn w a s vd pa ra pb rb : length pa = length pb ->
+    vc w (Node (HFnPtr 0 a s vd) (pa ++ [ra])) (Node (HFnPtr 0 a s vd) (pb ++ [rb])) =
+    vc_children adt_var fn_var (fun _ => xform w Contravariant) 0 pa pb ++ vc w ra rb.
+  Proof.
+    intros Hl. set (h := HFnPtr 0 a s vd).
+    rewrite vc_node. replace (is_lifetime (Node h (pa ++ [ra]))) with false by reflexivity.
+    rewrite vc_children_app by exact Hl. cbn [vc_children]. rewrite app_nil_r. f_equal.
+    - apply vc_children_ext. intros j Hj. unfold h. cbn [position_variance]. rewrite app_length. cbn [length].
+      replace (length pa + 1 - 1)%nat with (length pa) by lia. cbn [Nat.add].
+      destruct (Nat.ltb_spec j (length pa)); [reflexivity | lia].
+    - unfold h. cbn [position_variance]. rewrite app_length. cbn [length Nat.add].
+      replace (length pa + 1 - 1)%nat with (length pa) by lia.
+      destruct (Nat.ltb_spec (length pa) (length pa)); [lia | apply f_equal2; [apply xform_cov_r | reflexivity] || (rewrite xform_cov_r; reflexivity)].
+  Qed.
+
+  Lemma sat_seteq r1 r2 : seteq r1 r2 -> (sat r1 <-> sat r2).
+  Proof. intros H. unfold sat. split; intros S p Hp; apply S; apply H; exact Hp. Qed.
+
   Section LevelU.
     Variable f : nat.
     Hypothesis IH : forall v a b t, uterm a = true -> uterm b = true -> (depth a <= f)%nat -> ltinv t -> ucells t a -> ucells t b ->
@@ -472,6 +536,84 @@ Section Model.
           rewrite (bind_nosol _ _ _ _ _ R1). reflexivity.
     Qed.
 
+    Lemma zip_fn_u w a s vd ca cb t :
+      ufrag (Node (HFnPtr 0 a s vd) ca) = true -> ufrag (Node (HFnPtr 0 a s vd) cb) = true ->
+      (depth (Node (HFnPtr 0 a s vd) ca) <= S f)%nat -> ltinv t ->
+      ucells t (Node (HFnPtr 0 a s vd) ca) -> ucells t (Node (HFnPtr 0 a s vd) cb) ->
+      usem w (Node (HFnPtr 0 a s vd) ca) (Node (HFnPtr 0 a s vd) cb) t (zip_fn_subst (rel adt_var fn_var f) w ca cb t).
+    Proof.
+      intros Ha Hb Hd I Ua Ub. set (h := HFnPtr 0 a s vd) in *.
+      pose proof (ufrag_children _ _ Ha) as Ca. pose proof (ufrag_children _ _ Hb) as Cb.
+      pose proof (ucells_children _ _ _ Ua) as Uca. pose proof (ucells_children _ _ _ Ub) as Ucb.
+      assert (Da : Forall (fun c => (depth c <= f)%nat) ca).
+      { eapply Forall_impl; [| apply (depth_children h ca)]. cbn beta. intros c Hc. lia. }
+      destruct (ufrag_class _ _ Ha) as [(Q & _) | [(u & i & Q & _) | (a' & s' & vd' & _ & Na)]]; try discriminate Q.
+      destruct (ufrag_class _ _ Hb) as [(Q & _) | [(u & i & Q & _) | (a'' & s'' & vd'' & _ & Nb)]]; try discriminate Q.
+      destruct (exists_last Na) as (pa & ra & ->). destruct (exists_last Nb) as (pb & rb & ->).
+      unfold usem. rewrite (erase_uty _ _ Ha), (erase_uty _ _ Hb).
+      apply Forall_app in Ca, Cb, Da, Uca, Ucb.
+      destruct Ca as [Cpa Cra], Cb as [Cpb Crb], Da as [Dpa Dra], Uca as [Upa Ura], Ucb as [Upb Urb].
+      apply Forall_cons_iff in Cra, Crb, Dra, Ura, Urb.
+      destruct Cra as [Cra _], Crb as [Crb _], Dra as [Dra _], Ura as [Ura _], Urb as [Urb _].
+      unfold zip_fn_subst. rewrite !rev_app_distr. cbn [rev app]. rewrite !rev_length, !rev_involutive.
+      destruct (Nat.eqb_spec (length pa) (length pb)) as [Hl | Hl].
+      - pose proof (vc_fn w a s vd pa ra pb rb Hl) as V. fold h in V.
+        destruct (zip_u pa pb (fun _ => xform w Contravariant) 0%nat t Cpa Cpb Hl Dpa I Upa Upb)
+          as [(E & t1 & g1 & R1 & I1 & M1 & Q1) | (E & t1 & g1 & R1)].
+        + destruct (IH w ra rb t1 Cra Crb Dra I1 (ucells_keeps _ _ _ (proj2 M1) Ura) (ucells_keeps _ _ _ (proj2 M1) Urb))
+            as [(E' & t2 & g2 & R2 & I2 & M2 & Q2) | (E' & t2 & g2 & R2)].
+          * left. split; [f_equal; apply (erase_app_tail_u pa ra pb rb Hl); split; assumption |].
+            exists t2, (g1 ++ g2). split; [rewrite (bind_done _ _ _ _ _ _ R1), R2; reflexivity |].
+            split; [exact I2 |]. split; [eapply mono_trans; eassumption |]. intros R. rewrite V, sat_app, sat_goals_app. split.
+            -- intros (R2' & G1 & G2). pose proof (proj1 M2 R2') as R1'. split; [apply (Q1 R); auto | apply (Q2 R1'); auto].
+            -- intros (S1 & S2). destruct (proj2 (Q1 R) S1) as [R1' G1]. destruct (proj2 (Q2 R1') S2) as [R2' G2]. auto.
+          * right. split; [intros Q; inversion Q as [Q']; apply (erase_app_tail_u pa ra pb rb Hl) in Q'; destruct Q'; contradiction |].
+            exists t2, (g1 ++ g2). rewrite (bind_done _ _ _ _ _ _ R1), R2. reflexivity.
+        + right. split; [intros Q; inversion Q as [Q']; apply (erase_app_tail_u pa ra pb rb Hl) in Q'; destruct Q'; contradiction |].
+          exists t1, g1. rewrite (bind_nosol _ _ _ _ _ R1). reflexivity.
+      - right. split; [| exists t, []; reflexivity].
+        intros Q. inversion Q as [Q']. apply (f_equal (@length tm)) in Q'. rewrite !map_length, !app_length in Q'. cbn [length] in Q'. lia.
+    Qed.
+
+    Lemma rel_fn_binders_u v a s vd ca cb t :
+      ufrag (Node (HFnPtr 0 a s vd) ca) = true -> ufrag (Node (HFnPtr 0 a s vd) cb) = true ->
+      (depth (Node (HFnPtr 0 a s vd) ca) <= S f)%nat -> ltinv t ->
+      ucells t (Node (HFnPtr 0 a s vd) ca) -> ucells t (Node (HFnPtr 0 a s vd) cb) ->
+      usem v (Node (HFnPtr 0 a s vd) ca) (Node (HFnPtr 0 a s vd) cb) t
+           (rel_fn_binders (rel adt_var fn_var f) v 0 ca 0 cb t).
+    Proof.
+      intros Ha Hb Hd I Ua Ub.
+      pose proof (ufrag_children _ _ Ha) as Ca. pose proof (ufrag_children _ _ Hb) as Cb.
+      assert (P : forall w t0, (bu <- inst_univ 0 cb ;; ae <- inst_exist 0 ca ;; zip_fn_subst (rel adt_var fn_var f) w ae bu) t0
+                       = zip_fn_subst (rel adt_var fn_var f) w ca cb t0).
+      { intros w t0. rewrite (bind_done _ _ _ _ _ _ (inst_univ_u cb t0 Cb)).
+        rewrite (bind_done _ _ _ _ _ _ (inst_exist_u ca t0 Ca)).
+        destruct (zip_fn_subst (rel adt_var fn_var f) w ca cb t0) as [[r t2] g2]. reflexivity. }
+      assert (P' : forall w t0, (au <- inst_univ 0 ca ;; be <- inst_exist 0 cb ;; zip_fn_subst (rel adt_var fn_var f) w au be) t0
+                       = zip_fn_subst (rel adt_var fn_var f) w ca cb t0).
+      { intros w t0. rewrite (bind_done _ _ _ _ _ _ (inst_univ_u ca t0 Ca)).
+        rewrite (bind_done _ _ _ _ _ _ (inst_exist_u cb t0 Cb)).
+        destruct (zip_fn_subst (rel adt_var fn_var f) w ca cb t0) as [[r t2] g2]. reflexivity. }
+      unfold rel_fn_binders. destruct v.
+      - rewrite bind_ret. rewrite (P Covariant t). apply zip_fn_u; assumption.
+      - destruct (zip_fn_u Contravariant a s vd ca cb t Ha Hb Hd I Ua Ub) as [(E & t1 & g1 & R1 & I1 & M1 & Q1) | (E & t1 & g1 & R1)].
+        + destruct (zip_fn_u Covariant a s vd ca cb t1 Ha Hb Hd I1 (ucells_keeps _ _ _ (proj2 M1) Ua) (ucells_keeps _ _ _ (proj2 M1) Ub))
+            as [(_ & t2 & g2 & R2 & I2 & M2 & Q2) | (E' & _)]; [| contradiction].
+          left. split; [exact E |]. exists t2, (g1 ++ g2). split.
+          * rewrite <- P' in R1. rewrite (bind_done _ _ _ _ _ _ R1). rewrite (P Covariant t1), R2. reflexivity.
+          * split; [exact I2 |]. split; [eapply mono_trans; eassumption |]. intros R.
+            rewrite (sat_seteq _ _ (vc_inv_split adt_var fn_var _ _ Contravariant)). cbn [invert].
+            rewrite sat_app, sat_goals_app. split.
+            -- intros (R2' & G1 & G2). pose proof (proj1 M2 R2') as R1'. split; [apply (Q1 R); auto | apply (Q2 R1'); auto].
+            -- intros (S1 & S2). destruct (proj2 (Q1 R) S1) as [R1' G1]. destruct (proj2 (Q2 R1') S2) as [R2' G2]. auto.
+        + right. split; [exact E |]. exists t1, g1. rewrite <- P' in R1. rewrite (bind_nosol _ _ _ _ _ R1). reflexivity.
+      - destruct (zip_fn_u Contravariant a s vd ca cb t Ha Hb Hd I Ua Ub) as [(E & t1 & g1 & R1 & I1 & M1 & Q1) | (E & t1 & g1 & R1)].
+        + left. split; [exact E |]. exists t1, (g1 ++ []). split.
+          * rewrite <- P' in R1. rewrite (bind_done _ _ _ _ _ _ R1). reflexivity.
+          * rewrite app_nil_r. split; [exact I1 |]. split; [exact M1 | exact Q1].
+        + right. split; [exact E |]. exists t1, g1. rewrite <- P' in R1. rewrite (bind_nosol _ _ _ _ _ R1). reflexivity.
+    Qed.
+
     Lemma node_erase_u h ca h' cb :
       ufrag (Node h ca) = true -> ufrag (Node h' cb) = true ->
       (erase (Node h ca) = erase (Node h' cb) <-> h = h' /\ map erase ca = map erase cb).
@@ -494,8 +636,8 @@ Section Model.
       assert (NS : forall gs, erase (Node ha ca) <> erase (Node hb cb) -> usem v (Node ha ca) (Node hb cb) t (NoSol, t, gs)).
       { intros gs Q. right. split; [exact Q | eauto]. }
       destruct (head_eq_dec ha hb) as [Eh | Nh].
-      - subst hb. destruct (ufrag_class _ _ Ha) as [(Sa & Ta) | (u & i & Q & Q')].
-        + destruct (ufrag_class _ _ Hb) as [(_ & Tb) | (u & i & Q & _)]; [| subst ha; discriminate Sa].
+      - subst hb. destruct (ufrag_class _ _ Ha) as [(Sa & Ta) | [(u & i & Q & Q') | (a' & s' & vd' & Q & Na)]].
+        + destruct (ufrag_class _ _ Hb) as [(_ & Tb) | [(u & i & Q & _) | (a' & s' & vd' & Q & _)]]; try (subst ha; discriminate Sa).
           rewrite Ta, Tb, Sa. unfold head_eqb. destruct (head_eq_dec ha ha) as [_ | Q]; [| contradiction]. cbn [andb].
           pose proof (ufrag_same_head_len _ _ _ Sa Ha Hb) as Hl.
           assert (Da : Forall (fun c => (depth c <= f)%nat) ca).
@@ -508,14 +650,27 @@ Section Model.
             rewrite (vc_children_ext adt_var fn_var (fun i => xform v (position_variance adt_var fn_var ha (length ca) i)) (child_variance adt_var fn_var ha v)); [reflexivity |].
             intros j _. symmetry. apply child_variance_spec. exact Sa.
           * right. split; [intros Q; apply node_erase_u in Q; auto; destruct Q; contradiction | eauto].
-        + subst ha ca. destruct (ufrag_class _ _ Hb) as [(Sb & _) | (u' & i' & _ & Q)]; [discriminate Sb |]. subst cb. contradiction Nab. reflexivity.
+        + subst ha ca. destruct (ufrag_class _ _ Hb) as [(Sb & _) | [(u' & i' & _ & Q) | (a' & s' & vd' & Q & _)]]; try discriminate.
+          subst cb. contradiction Nab. reflexivity.
+        + subst ha. cbn [tcls_of]. cbn [abi_eqb safety_eqb].
+          replace (abi_eqb a' a' && safety_eqb s' s' && Bool.eqb vd' vd') with true
+            by (destruct a', s', vd'; reflexivity).
+          apply rel_fn_binders_u; assumption.
       - assert (Q : erase (Node ha ca) <> erase (Node hb cb)).
         { intros Q. apply node_erase_u in Q; auto. destruct Q. contradiction. }
-        destruct (ufrag_class _ _ Ha) as [(Sa & Ta) | (u & i & -> & ->)]; destruct (ufrag_class _ _ Hb) as [(Sb & Tb) | (u' & i' & -> & ->)].
+        destruct (ufrag_class _ _ Ha) as [(Sa & Ta) | [(u & i & -> & ->) | (a' & s' & vd' & -> & Na)]];
+          destruct (ufrag_class _ _ Hb) as [(Sb & Tb) | [(u' & i' & -> & ->) | (a'' & s'' & vd'' & -> & Nb)]].
         + rewrite Ta, Tb, Sa. unfold head_eqb. destruct (head_eq_dec ha hb); [contradiction |]. cbn [andb]. apply NS. exact Q.
+        + rewrite Ta. cbn [tcls_of]. apply NS. exact Q.
         + rewrite Ta. cbn [tcls_of]. apply NS. exact Q.
         + rewrite Tb. cbn [tcls_of]. apply NS. exact Q.
         + cbn [tcls_of]. apply NS. exact Q.
+        + cbn [tcls_of]. apply NS. exact Q.
+        + rewrite Tb. cbn [tcls_of]. apply NS. exact Q.
+        + cbn [tcls_of]. apply NS. exact Q.
+        + cbn [tcls_of].
+          replace (abi_eqb a' a'' && safety_eqb s' s'' && Bool.eqb vd' vd'') with false; [apply NS; exact Q |].
+          symmetry. destruct a', a'', s', s'', vd', vd''; try reflexivity; contradiction Nh; reflexivity.
     Qed.
   End LevelU.
 
@@ -614,22 +769,48 @@ Section Final.
       destruct (relate_u D le Hr Ht ρ adt_var fn_var arity fuel Covariant a b t Ha Hb Hd I Ua Ub) as [(E & gs0 & t0 & R0 & I0 & M0 & Q0) | (E & R0)];
         rewrite R0 in R; inversion R; subst. split; [apply M0 | exact Q0].
   Qed.
+
+  (** the same for EVERY variance, in one statement *)
+  Lemma relate_constraints_unknowns_any_variance_lemma fuel v a b t :
+    ufrag arity a = true -> ufrag arity b = true -> (depth a <= fuel)%nat -> ltinv t -> ucells t a -> ucells t b ->
+    (erase a = erase b /\ exists gs t', relate adt_var fn_var fuel v a b t = (Done gs, t') /\ ltinv t' /\
+       forall (D : Type) (le : D -> D -> Prop), (forall x, le x x) -> (forall x y z, le x y -> le y z -> le x z) ->
+       forall ρ : tm -> D,
+         (respects D le ρ t' -> respects D le ρ t)
+         /\ (respects D le ρ t ->
+              ((respects D le ρ t' /\ sat_goals D le ρ gs) <-> sat D le ρ (variance_constraints adt_var fn_var v a b))))
+    \/ (erase a <> erase b /\ relate adt_var fn_var fuel v a b t = (NoSol, t)).
+  Proof.
+    intros Ha Hb Hd I Ua Ub.
+    destruct (relate_u unit (fun _ _ => True) (fun _ => Logic.I) (fun _ _ _ _ _ => Logic.I) (fun _ => tt)
+                adt_var fn_var arity fuel v a b t Ha Hb Hd I Ua Ub) as [(E & gs & t' & R & I' & _) | (E & R)].
+    - left. split; [exact E |]. exists gs, t'. split; [exact R |]. split; [exact I' |].
+      intros D le Hr Ht ρ.
+      destruct (relate_u D le Hr Ht ρ adt_var fn_var arity fuel v a b t Ha Hb Hd I Ua Ub) as [(_ & gs0 & t0 & R0 & I0 & M0 & Q0) | (E0 & _)];
+        [| contradiction].
+      rewrite R0 in R. inversion R; subst. split; [apply M0 | exact Q0].
+    - right. split; assumption.
+  Qed.
 End Final.
 
 (** Non-vacuity: four lifetime unknowns ['?0 .. '?3] (unbound, universe 0);
-    [&'?0 (Inv<'?1>, Contra<&'?2 u32>)] against [&'?3 (Inv<'static>, Contra<&'!1_0 u32>)] and against
-    [&'?3 (Inv<'?2>, Contra<&'!1_0 u32>)], [Inv] invariant and [Contra] contravariant in their
-    parameter.  All hypotheses of the theorems hold; the first call binds ['?1 := 'static], the
-    second one unions ['?1] and ['?2]; both return the two outlives goals of the other positions,
-    while [variance_constraints] has four entries. *)
+    [&'?0 (Inv<'?1>, Contra<&'?2 u32>, fn(&'?2 u32) -> &'?0 u32)] against
+    [&'?3 (Inv<'static>, Contra<&'!1_0 u32>, fn(&'!1_1 u32) -> &'static u32)] and against the same
+    with [Inv<'?2>], [Inv] invariant and [Contra] contravariant in their parameter.  All
+    hypotheses of the theorems hold; the first call binds ['?1 := 'static], the second one unions
+    ['?1] and ['?2]; both return the four outlives goals of the other positions, while
+    [variance_constraints] has six entries. *)
 Definition exu_adt_var (id : N) : list variance :=
   match id with 0 => [Covariant] | 1 => [Contravariant] | _ => [Invariant] end.
 Definition exu_table : table :=
   snd (new_variable 0 (snd (new_variable 0 (snd (new_variable 0 (snd (new_variable 0 empty_table))))))).
+Definition exu_fn (x y : tm) : tm := Node (HFnPtr 0 AbiRust Safe false) [x; y].
 Definition exu_a : tm :=
-  ex_ref (lt_var 0) (Node (HTuple 2) [Node (HAdt 2) [lt_var 1]; Node (HAdt 1) [ex_ref (lt_var 2) ex_u32]]).
+  ex_ref (lt_var 0) (Node (HTuple 3) [Node (HAdt 2) [lt_var 1]; Node (HAdt 1) [ex_ref (lt_var 2) ex_u32];
+                                      exu_fn (ex_ref (lt_var 2) ex_u32) (ex_ref (lt_var 0) ex_u32)]).
 Definition exu_b (l : tm) : tm :=
-  ex_ref (lt_var 3) (Node (HTuple 2) [Node (HAdt 2) [l]; Node (HAdt 1) [ex_ref (ex_ph 0) ex_u32]]).
+  ex_ref (lt_var 3) (Node (HTuple 3) [Node (HAdt 2) [l]; Node (HAdt 1) [ex_ref (ex_ph 0) ex_u32];
+                                      exu_fn (ex_ref (ex_ph 1) ex_u32) (ex_ref (Node HLStatic []) ex_u32)]).
 
 Lemma exu_ltinv : ltinv exu_table.
 Proof.
@@ -651,12 +832,15 @@ Example relate_cov_unknowns_nonvacuous :
   /\ ltinv exu_table /\ ucells exu_table a /\ ucells exu_table b1 /\ ucells exu_table b2
   /\ erase a = erase b1
   /\ relate exu_adt_var (fun _ => []) 20 Covariant a b1 exu_table
-     = (Done [outlives_goal (lt_var 0) (lt_var 3); outlives_goal (ex_ph 0) (lt_var 2)],
+     = (Done [outlives_goal (lt_var 0) (lt_var 3); outlives_goal (ex_ph 0) (lt_var 2);
+              outlives_goal (ex_ph 1) (lt_var 2); outlives_goal (lt_var 0) (Node HLStatic [])],
         mktable [mkcell 0 (Unbound 0); mkcell 1 (Bound (Node HLStatic [])); mkcell 2 (Unbound 0); mkcell 3 (Unbound 0)] [0; 1; 2; 3] 0)
   /\ variance_constraints exu_adt_var (fun _ => []) Covariant a b1
-     = [(lt_var 0, lt_var 3); (lt_var 1, Node HLStatic []); (Node HLStatic [], lt_var 1); (ex_ph 0, lt_var 2)]
+     = [(lt_var 0, lt_var 3); (lt_var 1, Node HLStatic []); (Node HLStatic [], lt_var 1); (ex_ph 0, lt_var 2);
+        (ex_ph 1, lt_var 2); (lt_var 0, Node HLStatic [])]
   /\ relate exu_adt_var (fun _ => []) 20 Covariant a b2 exu_table
-     = (Done [outlives_goal (lt_var 0) (lt_var 3); outlives_goal (ex_ph 0) (lt_var 2)],
+     = (Done [outlives_goal (lt_var 0) (lt_var 3); outlives_goal (ex_ph 0) (lt_var 2);
+              outlives_goal (ex_ph 1) (lt_var 2); outlives_goal (lt_var 0) (Node HLStatic [])],
         mktable [mkcell 0 (Unbound 0); mkcell 1 (Unbound 0); mkcell 1 (Unbound 0); mkcell 3 (Unbound 0)] [0; 1; 2; 3] 0).
 Proof.
   cbv zeta. split; [reflexivity |]. split; [reflexivity |]. split; [reflexivity |]. split; [vm_compute; lia |].
